@@ -18,7 +18,7 @@ sys.path.insert(0, os.path.join(HERE, "..", "bytesym"))
 import vcommon as V
 from vcommon import log
 import z3
-import core, ref, driver as D, gen01, gen15, gen07, gen12, gen08, gen13, gen17, gen04, gen02
+import core, ref, driver as D, gen01, gen15, gen07, gen12, gen08, gen13, gen17, gen04, gen02, gen11
 
 LIMITS = {"timeout_ms": 4000, "max_steps": 6000, "max_paths": 160, "max_depth": 10, "budget_s": 90}
 G = {}
@@ -37,7 +37,7 @@ def build_cli(scratch):
 
 
 def family(prop):
-    return {"C01": gen01, "C15": gen15, "C07": gen07, "C12": gen12, "C08": gen08, "C13": gen13, "C17": gen17, "C04": gen04, "C18": gen04, "C02": gen02}[prop]
+    return {"C01": gen01, "C15": gen15, "C07": gen07, "C12": gen12, "C08": gen08, "C13": gen13, "C17": gen17, "C04": gen04, "C18": gen04, "C02": gen02, "C11": gen11}[prop]
 
 
 def path_models(paths, nin, limit):
@@ -75,7 +75,7 @@ def norm(lines):
     return t
 
 
-PIPELINE = {"C04": "execute", "C18": "transpile"}
+PIPELINE = {"C04": "execute", "C18": "transpile", "C11": "execute"}
 
 
 # ---------------------------------------------------------------- C02: accepted programs never hit a dynamic type failure
@@ -196,8 +196,18 @@ def work(job):
     stem = "p%05d_%d" % (idx, os.getpid())
     res = {"idx": idx, "item": item, "what": fam.describe(item)}
     t = time.time()
+    multi = isinstance(prog, dict)
+    if multi:
+        # a multi-module program lives in a directory of its own (the module files have fixed names)
+        wdir = os.path.join(wdir, stem)
+        os.makedirs(wdir, exist_ok=True)
+        stem = "main"
+    oth = lambda vals=None: (ref.render_modules(prog, vals) if multi else None)
     try:
-        funcs, mp = D.compile_raw(exe, wdir, stem, ref.render(prog))
+        if multi:
+            funcs, mp = D.compile_raw_modules(exe, wdir, stem, ref.render(prog), oth())
+        else:
+            funcs, mp = D.compile_raw(exe, wdir, stem, ref.render(prog))
     except RuntimeError as e:
         res.update(status="compile-fail", reason=str(e)[-400:])
         return res
@@ -212,11 +222,11 @@ def work(job):
                 ptrace, rtrace, holder = [], [], {}
                 st, lines, detail = D.predict_impl(funcs, mp, vals, trace=ptrace, holder=holder)
                 lines = norm(lines)
-                rc, out, err = D.run_real(exe, wdir, stem + "r", ref.render(prog, vals), trace=rtrace, full_stderr=(prop == "C17"))
+                rc, out, err = D.run_real(exe, wdir, stem if multi else stem + "r", ref.render(prog, vals), trace=rtrace, full_stderr=(prop == "C17"), others=oth(vals))
                 res["validated"] += 1
                 if prop in PIPELINE:
                     # C04 / C18: the same program and inputs through the file pipeline; stdout byte for byte, success / failure
-                    pl = D.run_pipelines(exe, wdir, stem + "m", ref.render(prog, vals), ("run", PIPELINE[prop]))
+                    pl = D.run_pipelines(exe, wdir, stem if multi else stem + "m", ref.render(prog, vals), ("run", PIPELINE[prop]), others=oth(vals))
                     res["pipeline_runs"] = res.get("pipeline_runs", 0) + 1
                     a_, b_ = pl["run"], pl[PIPELINE[prop]]
                     if D.pipelines_differ(a_, b_):
@@ -239,12 +249,14 @@ def work(job):
                         bad = "output before the failure differs"
                     elif detail.startswith("assert") and item[0] == "assert":
                         # a failed assert names file, line and column of THAT assert (position read off the source text)
-                        src_text = ref.render(prog, vals)
-                        want_pos = gen17.assert_position(src_text, vals[0] if 1 <= vals[0] <= 7 else 0)
+                        lvl = vals[0] if 1 <= vals[0] <= 7 else 0
+                        in_lib = gen17.level_in_module(item[1], lvl)
+                        src_text = ref.render_modules(prog, vals)[gen17.LIB + ".ms"] if in_lib else ref.render(prog, vals)
+                        want_pos = gen17.assert_position(src_text, lvl)
                         mpos = re.search(r"\(([^():\s]+):(\d+):(\d+)\)", err)
                         got_pos = (int(mpos.group(2)), int(mpos.group(3))) if mpos else None
                         res["assert_positions_compared"] = res.get("assert_positions_compared", 0) + 1
-                        if want_pos is None or got_pos != want_pos or not mpos.group(1).endswith(".ms"):
+                        if want_pos is None or got_pos != want_pos or not mpos.group(1).endswith(".ms") or mpos.group(1).endswith(gen17.LIB + ".ms") != in_lib:
                             bad = "the failed assert is reported at %s, the statement is at %s (line, column)" % (got_pos, want_pos)
                     if bad:
                         res.setdefault("c17", []).append({"inputs": vals, "why": bad, "expected": [st, lines, want], "real": [rc, out, (got or err[-300:])]})
@@ -264,7 +276,7 @@ def work(job):
         for v in res.get("violations", []):
             st, lines, detail = D.predict_ref(prog, v["inputs"])
             lines = norm(lines)
-            rc, out, err = D.run_real(exe, wdir, stem + "v", ref.render(prog, v["inputs"]))
+            rc, out, err = D.run_real(exe, wdir, stem if multi else stem + "v", ref.render(prog, v["inputs"]), others=oth(v["inputs"]))
             v["expected"] = [st, lines]
             v["real"] = [rc, out, err[-300:]]
             v["reproduced"] = rc is None or (rc == 0) != (st == "ok") or out != lines
@@ -272,6 +284,9 @@ def work(job):
         res.update(status="unsupported", reason=str(e)[:300])
     except Exception as e:   # noqa
         res.update(status="unsupported", reason="%s: %s" % (type(e).__name__, str(e)[:300]))
+    if multi:
+        import shutil
+        shutil.rmtree(wdir, ignore_errors=True)
     for suf in ("", "r", "v", "m"):
         try:
             os.remove(os.path.join(wdir, stem + suf + ".ms"))
@@ -349,6 +364,8 @@ def select(prop, tier):
         return gen04.select(tier, V.seed())
     if prop == "C02":
         return gen02.select(tier, V.seed())
+    if prop == "C11":
+        return gen11.select(tier, V.seed())
     if prop == "C01":
         if tier == "quick":
             return gen01.select([(1, None), (2, 1100), (3, 200)], V.seed(), deep=80)
@@ -520,7 +537,7 @@ def replay(a, prop):
         item = tuple(tuple(x) if isinstance(x, list) else x for x in item) if prop == "C01" else (tuplify(item[0]), item[1], item[2])
     prog = fam.program(*item)
     if d.get("pipeline"):
-        pl = D.run_pipelines(G["exe"], G["wdir"], "replay", ref.render(prog, d["inputs"]), ("run", d["pipeline"]))
+        pl = D.run_pipelines(G["exe"], G["wdir"], "replay", ref.render(prog, d["inputs"]), ("run", d["pipeline"]), others=ref.render_modules(prog, d["inputs"]))
         print("run: %s | %s: %s" % (pl["run"][:2], d["pipeline"], pl[d["pipeline"]][:2]))
         if D.pipelines_differ(pl["run"], pl[d["pipeline"]]):
             print("VIOLATION property=%s replay=%s" % (prop, a.replay))
@@ -529,7 +546,7 @@ def replay(a, prop):
         return V.EXIT_OK
     st, lines, detail = D.predict_ref(prog, d["inputs"])
     lines = norm(lines)
-    rc, out, err = D.run_real(G["exe"], G["wdir"], "replay", ref.render(prog, d["inputs"]))
+    rc, out, err = D.run_real(G["exe"], G["wdir"], "replay", ref.render(prog, d["inputs"]), others=ref.render_modules(prog, d["inputs"]))
     print("semantics: %s %s | real: exit %s %s" % (st, lines, rc, out))
     if rc is None or (rc == 0) != (st == "ok") or out != lines:
         print("VIOLATION property=%s replay=%s" % (prop, a.replay))
